@@ -168,6 +168,7 @@ func (cs crashsim) Run(c *Case, dir string) *Outcome {
 	type ack struct{ at, txid int }
 	acks := []ack{{0, startTxid}}
 	for i := range c.Prog.Steps {
+		Tick()
 		st := &c.Prog.Steps[i]
 		if st.Kind == "reopen" {
 			prev := e.LastTxid
@@ -257,6 +258,7 @@ func (cs crashsim) Run(c *Case, dir string) *Outcome {
 	var firstBadOpts work.OpenOpts
 	for si, spec := range states {
 		out.Evals++
+		Tick()
 		img, nvol, nkept := disk.Image(spec)
 		acked := ackedBefore(spec.Point)
 		inflight := -1
